@@ -60,9 +60,16 @@ theorem mbapp_complete_delivers (innerMTU cfgMTU : Nat) (m : MMsg) (hg : m.genui
   Reasm.mbapp_complete_delivers innerMTU cfgMTU m hg order hperm
 
 -- non-vacuity: a genuine three-part message exists and its fragments delivered in reverse order give the payload
-example : (Frag.tell 17 1000 7 [1, 2, 3, 4, 5]).map (·.length) = some 3 := by decide
+example : (Frag.tell 17 1000 7 [1, 2, 3, 4, 5]).map (·.length) = some 3 := by decide +kernel
 example :
     let m : FMsg := ⟨0, 7, [1, 2, 3, 4, 5], (Frag.tell 17 1000 7 [1, 2, 3, 4, 5]).getD []⟩
-    (frun [m] [.recv 0 2, .recv 0 0, .recv 0 1] [] []).2 = [(0, [1, 2, 3, 4, 5])] := by decide
+    (frun [m] [.recv 0 2, .recv 0 0, .recv 0 1] [] []).2 = [(0, [1, 2, 3, 4, 5])] := by decide +kernel
+
+-- non-vacuity, mbapp: likewise (inner MTU 26 = 24-byte header + 2-byte parts)
+example : (Mbapp.send 26 1000 {} [1, 2, 3, 4, 5]).map (·.length) = some 3 := by decide +kernel
+example :
+    let m : MMsg := ⟨0, {}, [1, 2, 3, 4, 5], (Mbapp.send 26 1000 {} [1, 2, 3, 4, 5]).getD []⟩
+    ((mrun 1000 [m] [.recv 0 2, .recv 0 0, .recv 0 1] [] []).2).map (fun d => (d.1, d.2.2)) = [(0, [1, 2, 3, 4, 5])] := by
+  decide +kernel
 
 end P2PVerif.C10
